@@ -465,6 +465,35 @@ def importItems (clear : Bool) : VMap → List Item → VMap × Nat
     let (m2, c2) := importItems clear m1 r
     (m2, c1 + c2)
 
+/-- The row a container key belongs to (`rowSize` containers per row; a single row when 0). -/
+def rowOf (rowSize key : Nat) : Nat := if rowSize = 0 then 0 else key / rowSize
+
+/-- `rowSet[row] += delta` on the row ↦ net change map (kept sorted by row). -/
+def addRow (row : Nat) (delta : Int) : List (Nat × Int) → List (Nat × Int)
+  | [] => [(row, delta)]
+  | rd :: r =>
+    if row < rd.1 then (row, delta) :: rd :: r
+    else if row = rd.1 then (rd.1, rd.2 + delta) :: r
+    else rd :: addRow row delta r
+
+/-- The `rowSet` result of ImportRoaringBits: for every row (`rowSize` containers; everything is
+row 0 when `rowSize = 0`) the net number of bits set (cleared: negative). An entry exists only for
+rows in which some container changed. -/
+def importRows (clear : Bool) (rowSize : Nat) : VMap → List Item → List (Nat × Int)
+  | _, [] => []
+  | m, it :: r =>
+    let step := if clear then importClearItem m it else importSetItem m it
+    let rows := importRows clear rowSize step.1 r
+    if step.2 = 0 then rows
+    else addRow (rowOf rowSize it.key) (if clear then -(step.2 : Int) else (step.2 : Int)) rows
+
+/-- Number of values a value-level bitmap holds in row `r`. -/
+def rowCount (rowSize : Nat) (m : VMap) (r : Nat) : Nat :=
+  ((m.filter (fun kv => rowOf rowSize kv.1 = r)).map (·.2.length)).sum
+
+/-- The entry of row `r` (0 when there is none). -/
+def rowDelta (rows : List (Nat × Int)) (r : Nat) : Int := ((rows.filter (·.1 = r)).map (·.2)).sum
+
 /-- Outcome of the validation walk of `ImportRoaringBits`: every container `Next` yields is
 checked against its header (`importedContainerIsConsistent`) before the next call, so the first
 inconsistent container wins over a later structural error. -/
@@ -488,6 +517,15 @@ def importBits (m : VMap) (d : Bytes) (clear : Bool) : Res (VMap × Nat) :=
   | (m', .ok ch) => .ok (m', ch)
   | (_, .err e) => .err e
   | (_, .panic s) => .panic s
+
+/-- The `rowSet` ImportRoaringBits returns for row size `rowSize` (empty when the call fails). -/
+def importRowSet (m : VMap) (d : Bytes) (clear : Bool) (rowSize : Nat) : List (Nat × Int) :=
+  match iterate d with
+  | .ok w =>
+    match walkVerdict w with
+    | none => importRows clear rowSize m w.items
+    | some _ => []
+  | _ => []
 
 /-- The import loop BEFORE `fix: ImportRoaringBits validates the whole payload before changing
 the bitmap`: containers were merged while the payload was being walked, so the containers in
